@@ -50,6 +50,31 @@ def handler(job):
         out["haslegend"] = int(leg is not None)
         out["legtexts"] = [t.get_text() for t in leg.get_texts()] if leg is not None else []
         out["other_artists"] = len(b.lines) + len(b.collections)
+    elif job["kind"] == "landscape":
+        from persim import PersLandscapeExact, PersLandscapeApprox
+        from persim.landscapes import visuals as lv
+        bars = np.array(job["bars"], dtype=float).reshape(-1, 2)
+        if job["lkind"] == 1:
+            L = PersLandscapeExact(dgms=[bars], hom_deg=0)
+            L.compute_landscape()
+            cont = [[[fl(x), fl(y)] for x, y in d] for d in L.critical_pairs]
+        else:
+            L = PersLandscapeApprox(dgms=[bars], hom_deg=0, start=job["start"], stop=job["stop"], num_steps=job["n"])
+            dom = np.linspace(L.start, L.stop, L.num_steps)
+            cont = [[[fl(x), fl(y)] for x, y in zip(dom, row)] for row in np.asarray(L.values, dtype=float)]
+        kw = dict(ax=a)
+        if job.get("title"):
+            kw["title"] = job["title"]
+        if job.get("labels"):
+            kw["labels"] = job["labels"]
+        if job.get("depth_range"):
+            kw["depth_range"] = range(job["depth_range"][0], job["depth_range"][1])
+        (lv.plot_landscape_simple if job.get("dispatch") else (lv.plot_landscape_exact_simple if job["lkind"] == 1 else lv.plot_landscape_approx_simple))(L, **kw)
+        out["content"] = cont
+        out["obslines"] = [[[fl(x), fl(y)] for x, y in zip(np.asarray(l.get_xdata(), dtype=float), np.asarray(l.get_ydata(), dtype=float))] for l in a.lines]
+        out["title"], out["xlabel"], out["ylabel"] = a.get_title(), a.get_xlabel(), a.get_ylabel()
+        out["onother"] = len(b.lines)
+        out["nmax"] = int(L.max_depth)
     else:
         S = np.array(job["S"], dtype=float).reshape(-1, 2)
         T = np.array(job["T"], dtype=float).reshape(-1, 2)
